@@ -415,6 +415,7 @@ class AsyncRunner(bc.Runner):
         if r is None: raise Crash("SCRIPT")
         flat, hostblocks = bc.place_image(native, im)
         out["hostblocks"] = hostblocks
+        out["flat_args"] = flat
         reports = []
         native.send(f"CALL|{m['key']}|{','.join(str(x) for x in flat)}")
         suspensions = 0
